@@ -139,3 +139,20 @@ void h_shift(void) {
   OBL(!KA || bn_mag(x) == mx, "sexp_arithmetic_shift.frame: operand unchanged");
   DONE();
 }
+
+/* arithmetic-shift, fixnum operand, ANY fixnum count (proved: the only loop is log2i's 64 steps).
+ * The fixnum path either returns the exact fixnum or hands the operand over to the bignum path
+ * (checked by group `shift`); the hand-over point is sexp_bignum_hi, replaced by a stub that ends
+ * the path, so every completed path is a fixnum-path result. */
+void h_shift_fixnum(void) {
+  SETUP_CTX();
+  in_f = nondet_long(); ASSUME(in_f >= SEXP_MIN_FIXNUM && in_f <= SEXP_MAX_FIXNUM);
+  in_c = nondet_long(); ASSUME(in_c >= SEXP_MIN_FIXNUM && in_c <= SEXP_MAX_FIXNUM);
+  sexp r = sexp_arithmetic_shift(ctx, SEXP_FALSE, 2, sexp_make_fixnum(in_f), sexp_make_fixnum(in_c));
+  OBL(sexp_fixnump(r), "shift_fixnum.result: the fixnum path returns a fixnum");
+  __int128 want;
+  if (in_c >= 0) { ASSUME(in_c < 64); want = (__int128)in_f * ((__int128)1 << in_c); }     /* larger counts cannot stay on the fixnum path unless f == 0 */
+  else want = in_c > -64 ? (__int128)(in_f >> -in_c) : (in_f < 0 ? -1 : 0);
+  OBL(in_c >= 64 ? in_f == 0 && sexp_unbox_fixnum(r) == 0 : (__int128)sexp_unbox_fixnum(r) == want, "shift_fixnum.value: f * 2^c, or floor(f / 2^-c)");
+  REACH();
+}
